@@ -17,3 +17,13 @@ ENTRY = {
     "assumptions": ["at most floor((n-1)/3) Byzantine members", "signatures of honest members are unforgeable (C05 establishes that every delivered core carries its source's signature)",
                     "Compare verdict is a function of (member, value)"],
 }
+
+# C02's adversary model ("what C05 admits") is an obligation of the code too: agreement on the real cluster is the
+# composition spec-agreement x admission. The check therefore also runs the admission stream of C05 (real
+# Consensus.handle) and reports its safety-relevant monitors under C02.
+from vlib.props_C05 import ENTRY as _E05
+ENTRY["streams"] = ENTRY["streams"] + [dict(_E05["streams"][0], seeds_quick=1)]
+ENTRY["monitor_sigs"] = ENTRY["monitor_sigs"] + ["qbftwire:tampered_accepted", "qbftwire:unsigned_justification_accepted",
+                                                 "qbftwire:cross_duty_accepted", "qbftwire:value_hash_mismatch_accepted",
+                                                 "qbftwire:malformed_accepted", "qbftwire:limit_exceeded_accepted"]
+ENTRY["trusted_base"] = ENTRY["trusted_base"] + ["the adversary of the system model (Spec/QbftSys admMsg) is what C05's accept_sound/accept_authentic admit; the admission stream qbftwire (real Consensus.handle, see C05) is run by this check as well"]
